@@ -205,7 +205,7 @@ def doRun (a : Json) : Except String Json := do
   let known ← (← getArrD a "known").toList.mapM decodeKnown
   let submitted ← decodeCluster (← J.getObj a "cluster")
   -- the admission chain: Admit, then Validate; everything below is about the admitted object
-  let c := admit submitted
+  let c := admitObject submitted
   let op : Operation := match (J.getStr a "op").toOption with
     | some "update" => .update
     | _ => .create
